@@ -67,6 +67,12 @@ impl HashSet<String> {
 }
 impl HashSet<TrueName> {
     #[verifier::external_body]
+    pub fn contains(&self, x: &TrueName) -> (r: bool) ensures r == hs(*self).contains(*x) { unimplemented!() }
+    #[verifier::external_body]
+    pub fn is_disjoint(&self, o: &HashSet<TrueName>) -> (r: bool) ensures r == hs(*self).disjoint(hs(*o)) { unimplemented!() }
+    #[verifier::external_body]
+    pub fn is_empty(&self) -> (r: bool) ensures r == (hs(*self).len() == 0) { unimplemented!() }
+    #[verifier::external_body]
     pub fn union(&self, o: &HashSet<TrueName>) -> (r: SetIter<TrueName>) ensures si(r) == hs(*self).union(hs(*o)) { unimplemented!() }
 }
 impl<T> SetIter<T> {
